@@ -11,12 +11,13 @@ import FluteModel.Lemmas.ObjRecvPanicFree
     * `GenEv`, `FileOK`, `OpEv` - event translation: a genuine packet  <->  `Sym`,  an FDT entry listing the TOI  <->  attach;
     * `SimCore` / `Sim`          - the simulation relation `ObjRecv.St ~ Session.ORx` (object in state Receiving);
     * `Rel`                      - `ObjRecv.St ~ Session.OState` incl. the outcome correspondence (writer calls = counters);
-    * `Steps`                    - the step lemmas the composition needs, as NAMED HYPOTHESES (see "OPEN" below);
+    * `Steps`                    - the two step lemmas the composition is stated over (`block2B_step`, `flush0_step`); BOTH ARE
+                                   THEOREMS: `flush0_thm`, `steps_of_block` (Lemmas/SessionFlush.lean) and `blockStep_of_contract`
+                                   (Lemmas/SessionBlock.lean, under the codec contract `CodecDec`);
     * `runL_rel`                 - MAIN THEOREM: the simulation over whole object histories, from `Steps`;
     * `complete_sound`           - COROLLARY: the Session model reports `complete`  =>  the ObjRecv writer was told `complete` and
                                    (C03) the bytes it accepted are the object.
-  STATUS of the step lemmas
-    DISCHARGED (theorems of this file):
+  STATUS of the step lemmas: ALL DISCHARGED
       * dead object / already attached object: later events are no-ops on both sides (inside `runL_rel`);
       * `push_unknown`          - OTI unknown, no in-band FTI: `cache()` incl. "Pkt cache is full"  ~  cache branch of `pushObj`;
       * `push_known_nonempty`   - OTI known, non-empty object: set_cenc / set_oti / init_blocks_partitioning / init_object_writer /
@@ -25,18 +26,16 @@ import FluteModel.Lemmas.ObjRecvPanicFree
                                   the block table (`Laws.quad`), then the block path on that state;
       * `push_empty`            - the EMPTY object (both ways of learning the OTI): `complete` iff the writer exists (D14 repaired),
                                   else receiving, then the B flag;
-      * `block_step`            - the B FLAG on top of `push_to_block2`: close-object on a still incomplete object = interrupted,
-                                  the writer told so iff it exists  ~  `pushSym` on top of `pushCore`.
-    OPEN = the two fields of `Steps`, NAMED HYPOTHESES of `runL_rel` / `complete_sound`:
-      * `block2_step`  - push_to_block2 ~ pushCore.  Needs: (i) `got` vs the ESIs the decoders hold under `BlockDecoder::push`,
-                         pop_front and `got.filter`; (ii) `block.completed` = `dec k p (esisOf got b)` - the codec contract in the
-                         form "canDecode + decode succeeds iff dec" (No-Code: all k; RS: >= k distinct); (iii) `blen[sbn]` = the
-                         block_length push_to_block2 computes; `distinctSbns.length` / `allocBytes` = nb_allocated_blocks /
-                         total_allocated_blocks_size (from `TInv.cnt`, a counting argument over `dedup`); (iv) blocks.len() <= 4097
-                         for the look-ahead test; (v) write_blocks ~ `advance`, `bw.sbn = blocks_offset`, `bytes_left = 0` iff all
-                         blocks are written (C07 block_lengths_sum), MD5 / Content-Length pass (`FileOK`);
-      * `attach_live`  - attach_fdt ~ attach + finish: metadata, writer creation (all-accepting env), LIFO replay = iterated block
-                         path on states with a non-empty cache (so `SimCore.part` must be weakened during the replay), write_blocks(0).
+      * `block_stepB`           - the B FLAG on top of `push_to_block2`: close-object on a still incomplete object = interrupted,
+                                  the writer told so iff it exists  ~  `pushSym` on top of `pushCore`;
+      * `attach_live`           - attach_fdt ~ attach + finish: metadata, writer creation (all-accepting env), LIFO replay of the
+                                  packet cache (`replay_sim`, block-level relation `SimB` during the replay), write_blocks(0);
+      * `flush0_thm` (SessionFlush.lean) - write_blocks(0) ~ `settle`: `flush_loop` against `advance`, exact byte accounting;
+      * `blockStep_of_contract` (SessionBlock.lean) - push_to_block2 ~ pushCore: SBN window, look-ahead (`SimF.len`: the deque never
+                                  exceeds 4097 blocks), allocation limit (`alloc_counts`), BlockDecoder::init / push against `got`
+                                  (`CodecDec`, over reachable decoder states `ReachBlk`), flush from the pushed block (`settle_at`).
+  The relation is an INVARIANT of genuine runs, not a hand-picked set of states: `runL_rel` re-establishes `Rel` / `Good` (incl.
+  `SimF`: `bw.sbn = blocks_offset`, byte accounting, blocks.len() <= 4097, every decoder `ReachBlk`) after every op of a `Hist`.
 
   DIVERGENCES between the two models found while stating / proving this (none on genuine histories in the Session model's
   configuration; each is a side condition of the theorems; all reported to agent e2e, who confirmed (1)-(8)):
@@ -46,7 +45,7 @@ import FluteModel.Lemmas.ObjRecvPanicFree
     (3) SBN >= nb_blocks: ignored by the code BEFORE the look-ahead test, pushCore has no such test (non-genuine packets);
     (4) ESI outside the decoder table: the code still initialises the block (allocation counters), Session does not; Raptor: any ESI is
         stored by the RaptorDecoder model, only ESI < k+p by Session (non-genuine packets);
-    (5) look-ahead: `sbn - written > 4096` vs `blocks.len() <= off /\ off > 4096`: equal if blocks.len() <= 4097 (not proved);
+    (5) look-ahead: `sbn - written > 4096` vs `blocks.len() <= off /\ off > 4096`: equal because blocks.len() <= 4097 (`SimF.len`, proved);
     (6) no writer refusal, no Content-MD5 / Content-Length failure in Session  -> `Setting.OK.env`, `FileOK.md5`, `FileOK.cl`;
     (7) `attach` sets otiKnown unconditionally; the code keeps oti = None when the FDT carries no FEC-OTI  -> `FileOK.oti`;
     (8) `blen` must be the block_length of push_to_block2 (`sbl * E` when the payload ID carries the source block length);
@@ -173,6 +172,19 @@ def blkEsis (blk : Block) : List Nat :=
   | none => []
   | some d => decEsis d
 
+/-- the ESI is in the decoder's table (`Session.pushCore`'s `stored`) -/
+def StoredEsi (Z : Setting) (b esi : Nat) : Prop :=
+  (match Z.oc.ks[b]? with
+    | none => false
+    | some k => decide (esi < Session.shardsOf Z.oc.scheme k Z.oc.p) || Z.oc.scheme == .raptorq) = true
+
+/-- the states a decoder of block `b` goes through: `BlockDecoder::init`, then `push` of genuine symbols with ESIs of the table -/
+inductive ReachBlk (Z : Setting) (b : Nat) : Block → Prop
+  | init (blk b' : Block) (bs : Nat) : blk.initialized = false → blk.completed = false →
+      blk.init Z.P.codec Z.S.o (Z.S.K b) bs b = .ok b' → ReachBlk Z b b'
+  | push (blk blk' : Block) (esi : Nat) : ReachBlk Z b blk → StoredEsi Z b esi →
+      blk.push Z.P.codec (Z.S.sym b esi) esi = some blk' → ReachBlk Z b blk'
+
 structure BlkOK (Z : Setting) (b : Nat) (blk : Block) : Prop where
   /-- the codec's decodability is `dec`: the block is completed iff `dec` says so for the ESIs it holds -/
   comp : blk.completed = Z.dec (Z.S.K b) Z.oc.p (blkEsis blk)
@@ -184,6 +196,8 @@ structure BlkOK (Z : Setting) (b : Nat) (blk : Block) : Prop where
   ne : blk.dec.isSome = true → blkEsis blk ≠ []
   /-- ... and is accounted with the block length of the Session configuration -/
   size : blk.dec.isSome = true → blk.blockSize = Z.oc.blen.getD b 0
+  /-- a decoder in the deque was built by `init` and fed genuine symbols only -/
+  reach : blk.dec.isSome = true → ReachBlk Z b blk
 
 structure BwOK (Z : Setting) (st : St) (w : BW) : Prop where
   sbn : w.sbn = st.blocksOffset
@@ -225,7 +239,7 @@ theorem simF_fresh (Z : Setting) (hdn : ∀ b, b < Z.S.n → Z.dec (Z.S.K b) Z.o
     have := (List.getElem?_eq_some_iff.mp hib).1
     simpa using this
   rw [List.eq_of_mem_replicate hm, ho]
-  refine ⟨?_, fun h => by simp at h, rfl, fun h => by simp at h, fun h => by simp at h⟩
+  refine ⟨?_, fun h => by simp at h, rfl, fun h => by simp at h, fun h => by simp at h, fun h => by simp at h⟩
   show false = _
   rw [show blkEsis ({} : Block) = [] from rfl, Nat.zero_add]
   exact (hdn i (by omega)).symm
